@@ -346,4 +346,62 @@ func suiteSplice(e *vh.Env) {
 			e.Sample(map[string]interface{}{"content_type": ct, "body_len": len(body), "first_read": firstLen, "first_head_at": idx, "heads": heads})
 		}
 	}
+	// overlapping responses: the hook runs for A, then for B, and only then are the bodies read (the agent serves
+	// many requests at once, so a rewritten body must not depend on anything that a later hook call can touch)
+	rounds := e.N(60, 2000)
+	for r := 0; r < rounds; r++ {
+		if !e.Want(n + r) {
+			continue
+		}
+		rng := e.Rng.Sub(1<<20 + r)
+		mk := func(tag string) []byte {
+			var b []byte
+			if rng.Chance(50) {
+				b = append(b, []byte("<html><head><title>"+tag+"</title></head>")...)
+			} else {
+				b = append(b, []byte("<div id=\""+tag+"\">fragment without the tag ")...)
+			}
+			for k := rng.Intn(2000); k > 0; k-- {
+				b = append(b, tag[k%len(tag)])
+			}
+			return b
+		}
+		k := 2 + rng.Intn(3)
+		var bodies [][]byte
+		var resps []*http.Response
+		for j := 0; j < k; j++ {
+			b := mk(fmt.Sprintf("resp-%d-%d", r, j))
+			bodies = append(bodies, b)
+			resp := &http.Response{Header: http.Header{"Content-Type": {"text/html"}, "Content-Length": {fmt.Sprint(len(b))}}, Body: &segReader{segs: [][]byte{append([]byte{}, b...)}}}
+			if err := shim(resp); err != nil {
+				e.Fail("C14:shimbody-error", err.Error(), n+r, nil, nil, nil)
+			}
+			resps = append(resps, resp)
+		}
+		order := rng.Intn(2)
+		for jj := 0; jj < k; jj++ {
+			j := jj
+			if order == 1 {
+				j = k - 1 - jj
+			}
+			out, _ := io.ReadAll(resps[j].Body)
+			want := bodies[j]
+			if idx := bytes.Index(want, []byte("<head>")); idx >= 0 && idx+6 <= 1024 {
+				want = append(append(append([]byte{}, want[:idx+6]...), code...), want[idx+6:]...)
+			}
+			if !bytes.Equal(out, want) {
+				e.Fail("C14:splice-overlap-altered", fmt.Sprintf("round %d: %d HTML responses passed the hook before any body was read; body %d (%d bytes) then read as %d bytes starting %q, expected %q", r, k, j, len(bodies[j]), len(out), truncBytesDrv(out, 50), truncBytesDrv(want, 50)), n+r, nil, nil, nil)
+				break
+			}
+		}
+		e.Eval(fmt.Sprintf("overlap-%d", r), true)
+		e.Count("overlap")
+	}
+}
+
+func truncBytesDrv(b []byte, n int) string {
+	if len(b) > n {
+		return string(b[:n])
+	}
+	return string(b)
 }
